@@ -910,7 +910,7 @@ var c08PacketClasses = []string{"stale-epoch", "stale-epoch-minus-one", "nil-ter
 	"unknown-scheme", "leader-not-remaining", "leader-leaving", "leader-joining", "foreign-beacon-id-in-terms",
 	"foreign-beacon-id-in-metadata", "well-formed",
 	"changed-beacon-period", "changed-beacon-period-as-leaver", "changed-scheme", "changed-scheme-as-leaver",
-	"changed-beacon-period", "changed-scheme"}
+	"changed-beacon-period", "changed-scheme", "remainers-below-prior-threshold", "remainers-below-prior-threshold"}
 
 func vfdShuffledStrings(rng *vfRng, l []string) []string {
 	out := make([]string, len(l))
@@ -1033,6 +1033,32 @@ func (h *c08H) forgedProposal(T *vfdNode, class string) bool {
 				}
 			}
 		}
+	case "remainers-below-prior-threshold":
+		// fewer current members stay than the previous threshold (they could not even reconstruct the old secret), but
+		// with the joiners counted the new group is large enough for its own threshold: every other constraint holds
+		if !hasFin || v.fin.Threshold < 2 {
+			return false
+		}
+		keep := int(v.fin.Threshold) - 1
+		stay := []*vfdNode{leader}
+		if keep >= 2 {
+			stay = append(stay, T)
+		}
+		for _, m := range vfdShuffled(h.rng, c08Without(members, leader, T)) {
+			if len(stay) < keep {
+				stay = append(stay, m)
+			}
+		}
+		fresh := vfdShuffled(h.rng, c08Without(h.pool, members...))
+		if len(fresh) < 2 {
+			return false
+		}
+		join := fresh[:2]
+		terms.Remaining = vfdParts(vfdShuffled(h.rng, stay))
+		terms.Leaving = vfdParts(vfdShuffled(h.rng, c08Without(members, stay...)))
+		terms.Joining = vfdParts(join)
+		nn := len(stay) + len(join)
+		terms.Threshold = uint32(nn/2 + 1)
 	case "foreign-beacon-id-in-terms":
 		terms.BeaconID = "vf-some-other-beacon"
 	case "foreign-beacon-id-in-metadata":
@@ -1051,7 +1077,7 @@ func (h *c08H) forgedProposal(T *vfdNode, class string) bool {
 }
 
 var c08CmdClasses = []string{"threshold-above-n", "threshold-below-minimum", "expired-timeout", "member-dropped",
-	"leader-not-remaining", "leader-joining", "unknown-scheme", "stale-initial"}
+	"leader-not-remaining", "leader-joining", "unknown-scheme", "stale-initial", "remainers-below-prior-threshold"}
 
 // invalidCommand: an operator command carrying an invalid proposal.
 func (h *c08H) invalidCommand(P *vfdNode, class string) bool {
@@ -1111,6 +1137,23 @@ func (h *c08H) invalidCommand(P *vfdNode, class string) bool {
 	case "leader-joining":
 		remaining = c08Without(remaining, P)
 		joining = []*vfdNode{P}
+	case "remainers-below-prior-threshold":
+		if v.fin.Threshold < 2 {
+			return false
+		}
+		fresh := vfdShuffled(h.rng, c08Without(h.pool, members...))
+		if len(fresh) < 2 {
+			return false
+		}
+		stay := []*vfdNode{P}
+		for _, m := range c08Without(remaining, P) {
+			if len(stay) < int(v.fin.Threshold)-1 {
+				stay = append(stay, m)
+			}
+		}
+		leaving = c08Without(members, stay...)
+		remaining, joining = stay, fresh[:2]
+		thr = uint32((len(stay)+2)/2 + 1)
 	case "stale-initial":
 		// a first-epoch proposal on a node that already completed an epoch
 		_ = h.step(c08Opt{kind: "cmd-initial", class: class, actor: P, target: P, mustReject: true}, func() error {
